@@ -1547,11 +1547,10 @@ class _SideEffectCache(threading.local):
     self.cache = {}
 
 
-_side_effect_cache = _SideEffectCache()
-
-
-def _restore_rng_counters(scopes, fingerprint, capture_old_counts):
-  if fingerprint not in _side_effect_cache.cache:
+def _restore_rng_counters(
+    side_effect_cache, scopes, fingerprint, capture_old_counts
+):
+  if fingerprint not in side_effect_cache.cache:
     capture_new_counts = jax.tree.map(
         lambda s: CountsHolder.make(s.rng_counters), scopes
     )
@@ -1560,11 +1559,11 @@ def _restore_rng_counters(scopes, fingerprint, capture_old_counts):
         capture_old_counts,
         capture_new_counts,
     )
-    _side_effect_cache.cache[fingerprint] = capture_delta_counts
+    side_effect_cache.cache[fingerprint] = capture_delta_counts
   else:
     updated_counts = jax.tree.map(
         lambda x, y: x.add(y).unflat(),
-        _side_effect_cache.cache[fingerprint],
+        side_effect_cache.cache[fingerprint],
         capture_old_counts,
     )
     jax.tree.map(
@@ -1639,6 +1638,10 @@ def jit(
   # this is impure but we use the fingerprint arg to differentiate between cases
   # where scope_fn or repack_fn actually produce non-identical results.
   jit_context = TransformContext[tuple[Callable, Callable]]()
+  # The rng counter increments are a side effect of tracing ``jitted`` and are
+  # replayed on cache hits. They must be cached per transformed function (like
+  # the jit cache itself): two functions can share a fingerprint.
+  side_effect_cache = _SideEffectCache()
 
   @functools.partial(
       jax.jit,
@@ -1684,7 +1687,9 @@ def jit(
           lambda s: CountsHolder.make(s.rng_counters), scopes
       )
       res = jitted(fingerprint, variable_groups, rng_groups, *args, **kwargs)
-      _restore_rng_counters(scopes, fingerprint, capture_old_counts)
+      _restore_rng_counters(
+          side_effect_cache, scopes, fingerprint, capture_old_counts
+      )
       return res
 
   return pack(
@@ -1783,6 +1788,7 @@ def fold_rngs(
   # this is impure but we use the fingerprint arg to differentiate between cases
   # where scope_fn or repack_fn actually produce non-identical results.
   fold_rngs_context = TransformContext[tuple[Callable, Callable]]()
+  side_effect_cache = _SideEffectCache()
 
   @functools.wraps(fn)
   def wrapped_fold_rngs(fingerprint, variable_groups, rng_groups, *args, **kwargs):
@@ -1822,7 +1828,9 @@ def fold_rngs(
       res = wrapped_fold_rngs(
           fingerprint, variable_groups, rng_groups, *args, **kwargs
       )
-      _restore_rng_counters(scopes, fingerprint, capture_old_counts)
+      _restore_rng_counters(
+          side_effect_cache, scopes, fingerprint, capture_old_counts
+      )
       return res
 
   return pack(
